@@ -63,3 +63,11 @@ m('c20-hints-swapped', 'mofun/cli/mofun_cli.py', 'axisp1_idx=axisp1_idx, axisp2_
 m('c20-find-atol-dropped', 'mofun/cli/mofun_cli.py', 'results = find_pattern_in_structure(atoms, search_pattern, atol=atol)', 'results = find_pattern_in_structure(atoms, search_pattern)', 'C20')
 m('c20-replace-loads-find-file', 'mofun/cli/mofun_cli.py', 'replace_pattern = Atoms.load(replace_path)', 'replace_pattern = Atoms.load(find_path)', 'C20')
 m('c20-harmless-rename', 'mofun/cli/mofun_cli.py', '        search_pattern = Atoms.load(find_path)\n        if replace_path is not None:\n            replace_pattern = Atoms.load(replace_path)\n            atoms = replace_pattern_in_structure(atoms, search_pattern, replace_pattern, atol=atol,', '        pattern_to_find = Atoms.load(find_path)\n        search_pattern = pattern_to_find\n        if replace_path is not None:\n            replace_pattern = Atoms.load(replace_path)\n            atoms = replace_pattern_in_structure(atoms, search_pattern, replace_pattern, atol=atol,', 'C20', 'pass')
+# ---- C11 (body of Atoms.extend)
+m('c11-bond-offset-index', 'mofun/atoms.py', 'self.bond_types = np.append(self.bond_types, other.bond_types + offsets[1])', 'self.bond_types = np.append(self.bond_types, other.bond_types + offsets[2])', 'C11')
+m('c11-no-reverse-match', 'mofun/atoms.py', '            return forward_dir + reverse_dir', '            return forward_dir', 'C11')
+m('c11-offset-dropped', 'mofun/atoms.py', 'structure_index_map2 = {a:i + atom_idx_offset for i,a in enumerate(atoms_to_add)}', 'structure_index_map2 = {a:i for i,a in enumerate(atoms_to_add)}', 'C11')
+m('c11-groups-from-charges', 'mofun/atoms.py', 'self.groups = np.append(self.groups, other.groups[atoms_to_add], axis=0)', 'self.groups = np.append(self.groups, other.charges[atoms_to_add], axis=0)', 'C11')
+m('c11-mapped-type-no-offset', 'mofun/atoms.py', 'self.atom_types[self_index] = other.atom_types[other_index] + offsets[0]', 'self.atom_types[self_index] = other.atom_types[other_index]', 'C11')
+m('c11-angle-extra-not-deleted', 'mofun/atoms.py', '            self.extra_angle_fields = np.delete(self.extra_angle_fields, existing_angle_indices, axis=0)\n', '', 'C11')
+m('c11-harmless-local-rename', 'mofun/atoms.py', '        atom_idx_offset = len(self.positions)\n', '        atom_idx_offset = len(self.positions)\n        n_before = atom_idx_offset\n', 'C11', 'pass')
